@@ -108,7 +108,7 @@ def name_model(mb: ModelBuilder, name: str, in_ctc: bool = True, as_root: bool =
     root = mb.feature(name if as_root else "Root")
     a = mb.feature("Other" if as_root else name)
     b = mb.feature("Plain")
-    mb.relation(root, [a], 1, 1)
+    mb.relation(root, [a], 0 if not as_root else 1, 1)   # optional: the two constraints below are independent
     mb.relation(root, [b], 0, 1)
     twin = name.swapcase() if name.swapcase() != name else name + "X"
     if not as_root and twin not in ("Root", "Plain", "Other", name):
